@@ -126,8 +126,26 @@ def execute_ops(prop, ops, detail=False):
         prop.end_run()
 
 
+def common_probes(w):
+    for s in w.all_slots():
+        m = s.machine
+        if s.cls == "Mixed" and m.deps_ckpt_written:
+            w.probe("mixed_deps_checkpoint")
+        if s.cls == "HRevolve" and m.disk_writes:
+            w.probe("hrevolve_used_disk_runs")
+        if m.reread_disk:
+            w.probe("disk_checkpoint_reread_runs")
+        if s.cls == "Multistage" and m.ram_writes and m.disk_writes:
+            w.probe("multistage_both_storages_runs")
+        if s.cls == "TwoLevel" and s.N % s.cfg["p"]["period"]:
+            w.probe("twolevel_partial_last_block_runs")
+        if m.passes >= 2:
+            w.probe("second_pass_runs")
+
+
 def finish_run(prop, w, idx, detail):
     prop.check(w)
+    common_probes(w)
     own = [v for v in w.viol if v["prop"] == prop.ID]
     nt = prop.nontrivial(w)
     res = {
@@ -166,10 +184,81 @@ def remap_ops(ops, k):
     return out
 
 
+class LineReach:
+    """Which library lines a child executed (sys.monitoring LINE events,
+    each location disabled after its first hit, so the cost is negligible).
+    """
+
+    def __init__(self):
+        self.hits = set()
+        self.on = False
+
+    def start(self):
+        mon = getattr(sys, "monitoring", None)
+        if mon is None:
+            return
+        libdir = os.path.join(os.path.realpath(W.REPO),
+                              "checkpoint_schedules") + os.sep
+        hits = self.hits
+        n = len(libdir)
+
+        def cb(code, line):
+            fn = code.co_filename
+            if fn.startswith(libdir):
+                hits.add((fn[n:], line))
+            return mon.DISABLE
+        try:
+            mon.use_tool_id(mon.COVERAGE_ID, "verif-reach")
+            mon.register_callback(mon.COVERAGE_ID, mon.events.LINE, cb)
+            mon.set_events(mon.COVERAGE_ID, mon.events.LINE)
+            self.on = True
+        except ValueError:
+            pass
+
+    def stop(self):
+        if self.on:
+            mon = sys.monitoring
+            mon.set_events(mon.COVERAGE_ID, 0)
+            mon.free_tool_id(mon.COVERAGE_ID)
+            self.on = False
+
+
+def executable_lines():
+    """(relative file -> set of line numbers that carry code)."""
+    root = os.path.join(os.path.realpath(W.REPO), "checkpoint_schedules")
+    out = {}
+    for d, dirs, files in sorted(os.walk(root)):
+        dirs.sort()
+        for f in sorted(files):
+            if not f.endswith(".py"):
+                continue
+            p = os.path.join(d, f)
+            try:
+                with open(p) as fh:
+                    code = compile(fh.read(), p, "exec")
+            except SyntaxError:
+                continue
+            lines = set()
+            stack = [code]
+            while stack:
+                c = stack.pop()
+                for _, _, ln in c.co_lines():
+                    if ln is not None:
+                        lines.add(ln)
+                for k in c.co_consts:
+                    if hasattr(k, "co_lines"):
+                        stack.append(k)
+            out[os.path.relpath(p, root)] = lines
+    return out
+
+
 def _batch(arg):
     prop, seed, tier, idxs, want_sample = arg
     out = []
     earlier = []
+    reach = LineReach()
+    if idxs and (idxs[0] // max(1, len(idxs))) % 8 == 0:
+        reach.start()       # every 8th batch measures line reach
     for idx in idxs:
         res = execute_run(prop, seed, tier, idx, detail=(idx in want_sample))
         ops = res["ops"]
@@ -180,6 +269,9 @@ def _batch(arg):
             del res["ops"]
         earlier.append(ops)
         out.append(res)
+    reach.stop()
+    if reach.hits and out:
+        out[-1]["reach"] = reach.hits
     return out
 
 
@@ -207,6 +299,7 @@ class Agg:
         self.samples = []
         self.foreign = 0
         self.max_idx = -1
+        self.reach = set()
 
     def add(self, res):
         self.runs += 1
@@ -224,6 +317,8 @@ class Agg:
         self.orders.add(res["order"])
         self.foreign += res["foreign"]
         self.max_idx = max(self.max_idx, res["idx"])
+        if "reach" in res:
+            self.reach |= res["reach"]
         if res["viol"]:
             self.nviol += len(res["viol"])
             if len(self.viol) < 200:
@@ -258,6 +353,7 @@ class Agg:
         self.samples += o.samples
         self.foreign += o.foreign
         self.max_idx = max(self.max_idx, o.max_idx)
+        self.reach |= o.reach
 
 
 def _short_ops(ops, limit=40):
@@ -418,6 +514,21 @@ def write_evidence(prop, tier, seed, agg, wall, extra=None, violations=0):
         "timeouts": len(agg.timeouts),
         "violations_of_other_properties_seen_not_reported": agg.foreign,
     }
+    if agg.reach:
+        total = executable_lines()
+        per = {}
+        for f, lines in sorted(total.items()):
+            hit = {ln for (ff, ln) in agg.reach if ff == f}
+            # lines of def/class headers and module level run at import time
+            # (before monitoring starts); only function bodies are comparable
+            per[f] = {"reached": len(hit & lines), "executable": len(lines)}
+        cov["line_reach"] = {
+            "note": "library lines executed while runs were in progress "
+                    "(sampled: every 8th batch; import-time lines are not "
+                    "counted as reached)",
+            "files": per,
+            "reached_total": sum(v["reached"] for v in per.values()),
+        }
     if extra:
         cov.update(extra)
     ev = {
